@@ -38,13 +38,23 @@ Proof. vm_compute. reflexivity. Qed.
 Lemma letter_ok c : is_letter c = true -> letter_props c = true.
 Proof. intros H. apply letter_in in H. pose proof letters_ok as A. rewrite forallb_forall in A. auto. Qed.
 
-Ltac letter_facts c H :=
-  let P := fresh "LP" in
-  pose proof (letter_ok c H) as P; unfold letter_props in P;
-  repeat (apply andb_true_iff in P as [P ?]);
+Lemma letter_facts c : is_letter c = true ->
+  is_ws c = false /\ is_term c = false /\ is_begin_num c = false /\ dispatch_code c = 255 /\
+  is_begin_name c = true /\ (c =? 58) = false /\ is_udigit c = false /\ (c =? 47) = false /\
+  (c =? 35) = false /\ (c =? 41) = false /\ (c =? 93) = false /\ (c =? 34) = false.
+Proof.
+  intros H. pose proof (letter_ok c H) as P. unfold letter_props in P.
+  repeat match goal with
+         | X : _ && _ = true |- _ => apply andb_true_iff in X; destruct X
+         end.
   repeat match goal with
          | X : negb _ = true |- _ => apply negb_true_iff in X
          end.
+  match goal with X : (dispatch_code c =? 255) = true |- _ => apply N.eqb_eq in X end.
+  repeat split; assumption.
+Qed.
+Ltac lfacts c H :=
+  destruct (letter_facts c H) as (Lws & Lterm & Lnum & Ldisp & Lname & L58 & Ldig & L47 & L35 & L41 & L93 & L34).
 
 (** ** symbols *)
 Definition tcond (r : list N) : Prop :=
@@ -60,8 +70,8 @@ Proof.
     + rewrite (peek_nil _ E). reflexivity.
     + rewrite (peek_rest _ _ _ E). rewrite W. reflexivity.
   - simpl in F. apply andb_true_iff in F as [Fc Ft]. destruct n; [simpl in L; lia|].
-    simpl. rewrite (peek_rest _ _ _ E). letter_facts c Fc.
-    replace (is_ws c || is_term c) with false by (rewrite H9, H8; reflexivity).
+    simpl. rewrite (peek_rest _ _ _ E). lfacts c Fc.
+    rewrite Lws, Lterm. cbn [orb].
     erewrite IH; [|eapply adv_rest; exact E|exact Ft|exact T|simpl in L; lia].
     simpl. rewrite <- app_assoc. reflexivity.
 Qed.
@@ -69,27 +79,25 @@ Qed.
 Lemma after_last_slash_none l acc : forallb is_letter l = true -> after_last_slash acc l = acc.
 Proof.
   revert acc. induction l as [|c t IH]; intros acc F; simpl; [reflexivity|].
-  simpl in F. apply andb_true_iff in F as [Fc Ft]. letter_facts c Fc. rewrite H2. apply IH. exact Ft.
+  simpl in F. apply andb_true_iff in F as [Fc Ft]. lfacts c Fc. rewrite L47. apply IH. exact Ft.
 Qed.
 Lemma split_slash_none l : forallb is_letter l = true -> split_slash l = None.
 Proof.
   induction l as [|c t IH]; intros F; simpl; [reflexivity|].
-  simpl in F. apply andb_true_iff in F as [Fc Ft]. letter_facts c Fc. rewrite H2, (IH Ft). reflexivity.
+  simpl in F. apply andb_true_iff in F as [Fc Ft]. lfacts c Fc. rewrite L47, (IH Ft). reflexivity.
 Qed.
 Lemma ident_ok_letters name :
   name <> [] -> forallb is_letter name = true -> ident_ok name = true /\ split_ident name = (None, name).
 Proof.
   intros NE F. destruct name as [|c t]; [congruence|]. pose proof F as F0.
-  simpl in F. apply andb_true_iff in F as [Fc Ft]. letter_facts c Fc.
+  simpl in F. apply andb_true_iff in F as [Fc Ft]. lfacts c Fc.
   assert (N47 : c <> 47) by (apply N.eqb_neq; assumption).
+  assert (S47 : str_eqb (c :: t) [47] = false).
+  { unfold str_eqb. cbn [list_eqb]. rewrite L47. reflexivity. }
   split.
-  - unfold ident_ok. rewrite (after_last_slash_none _ None F0).
-    assert (NS : name_start c = true) by (unfold name_start; rewrite H3, H2; reflexivity).
-    destruct t as [|d t']; [|exact NS].
-    destruct c as [|p]; [exact NS|]. repeat (destruct p as [p|p|]; try exact NS). congruence.
-  - unfold split_ident. rewrite (split_slash_none _ F0).
-    destruct t as [|d t']; [|reflexivity].
-    destruct c as [|p]; [reflexivity|]. repeat (destruct p as [p|p|]; try reflexivity). congruence.
+  - unfold ident_ok. rewrite S47. rewrite (after_last_slash_none _ None F0).
+    unfold name_start. rewrite Ldig, L47. reflexivity.
+  - unfold split_ident. rewrite S47. rewrite (split_slash_none _ F0). reflexivity.
 Qed.
 
 Lemma ends_with_letters name c0 : forallb is_letter name = true -> is_letter c0 = false -> ends_with c0 name = false.
@@ -114,4 +122,81 @@ Proof.
   apply negb_true_iff in R. unfold reserved in R.
   apply orb_false_iff in R as [R R3]. apply orb_false_iff in R as [R1 R2].
   unfold s_nil, s_true, s_false. rewrite R1, R2, R3. reflexivity.
+Qed.
+
+(** ** strings *)
+Definition strchars_ok (c : list N) : bool := forallb (fun x => negb (x =? 34) && negb (x =? 92)) c.
+
+Lemma str_loop_render chars : forall r s acc n,
+  rest (adv s) = chars ++ 34 :: r -> strchars_ok chars = true ->
+  str_loop false n s acc = Err EFuel \/
+  str_loop false n s acc = Ok (rev acc ++ chars) (adv (adv_n (length chars) (adv s))).
+Proof.
+  induction chars as [|c t IH]; intros r s acc n E W.
+  - destruct n; [left; reflexivity|]. right. simpl.
+    rewrite (peek_rest _ _ _ E). change (34 =? 92) with false. change (34 =? 34) with true.
+    cbn match. rewrite app_nil_r. reflexivity.
+  - destruct n; [left; reflexivity|]. simpl in W. apply andb_true_iff in W as [Wc Wt].
+    apply andb_true_iff in Wc as [W34 W92]. apply negb_true_iff in W34, W92.
+    simpl. rewrite (peek_rest _ _ _ E). rewrite W92, W34.
+    destruct (IH r (adv s) (c :: acc) n) as [H|H]; [eapply adv_rest; exact E|exact Wt|left; exact H|].
+    right. rewrite H. simpl. rewrite <- app_assoc. reflexivity.
+Qed.
+
+(** ** the expected forms *)
+Fixpoint reify (f : pform) (s : st) : form :=
+  let e := adv_n (length (render f)) s in
+  let fix seq (l : list pform) (s : st) : list form :=
+    match l with
+    | [] => []
+    | x :: r => reify x s :: seq r (adv_n (S (length (render x))) s)
+    end in
+  match f with
+  | PSym n => FSym None n (mkloc s e)
+  | PStr c => FStr c
+  | PList l => FList (seq l (adv s)) (mkloc s e)
+  | PVec l => FVec (seq l (adv s)) (mkloc s e)
+  | PQuote g => FList [FSym None s_quote None; reify g (adv s)] (mkloc s e)
+  | PDeref g => FList [FSym (Some s_core) s_deref None; reify g (adv s)] (mkloc s e)
+  end.
+Fixpoint reify_seq (l : list pform) (s : st) : list form :=
+  match l with
+  | [] => []
+  | x :: r => reify x s :: reify_seq r (adv_n (S (length (render x))) s)
+  end.
+
+Lemma render_seq_eq l :
+  (fix seq (l : list pform) : list N :=
+     match l with [] => [] | [x] => render x | x :: r => render x ++ 32 :: seq r end) l = render_seq l.
+Proof. induction l as [|x r IH]; [reflexivity|]. destruct r as [|y r]; [reflexivity|]. change (render_seq (x :: y :: r)) with (render x ++ 32 :: render_seq (y :: r)). rewrite <- IH. reflexivity. Qed.
+Lemma render_list l : render (PList l) = 40 :: render_seq l ++ [41].
+Proof. cbn [render]. rewrite render_seq_eq. reflexivity. Qed.
+Lemma render_vec l : render (PVec l) = 91 :: render_seq l ++ [93].
+Proof. cbn [render]. rewrite render_seq_eq. reflexivity. Qed.
+Lemma reify_seq_eq l : forall s,
+  (fix seq (l : list pform) (s : st) : list form :=
+     match l with [] => [] | x :: r => reify x s :: seq r (adv_n (S (length (render x))) s) end) l s
+  = reify_seq l s.
+Proof. induction l as [|x r IH]; intros s; [reflexivity|]. cbn [reify_seq]. Show. Abort.
+Lemma reify_list l s :
+  reify (PList l) s = FList (reify_seq l (adv s)) (mkloc s (adv_n (length (render (PList l))) s)).
+Proof. cbn [reify]. rewrite reify_seq_eq. reflexivity. Qed.
+Lemma reify_vec l s :
+  reify (PVec l) s = FVec (reify_seq l (adv s)) (mkloc s (adv_n (length (render (PVec l))) s)).
+Proof. cbn [reify]. rewrite reify_seq_eq. reflexivity. Qed.
+
+(** the first character of a rendered form: not whitespace, not a closer *)
+Definition head_ok (c : N) : Prop :=
+  is_ws c = false /\ (c =? 41) = false /\ (c =? 93) = false.
+Lemma render_head f : wf f = true -> exists c t, render f = c :: t /\ head_ok c.
+Proof.
+  destruct f; intros W.
+  - simpl in W. apply andb_true_iff in W as [W _]. apply andb_true_iff in W as [NE F].
+    destruct name as [|c t]; [discriminate|]. exists c, t. split; [reflexivity|].
+    simpl in F. apply andb_true_iff in F as [Fc _]. lfacts c Fc. repeat split; assumption.
+  - exists 34, (chars ++ [34]). split; [reflexivity|]. repeat split; reflexivity.
+  - rewrite render_list. eexists _, _. split; [reflexivity|]. repeat split; reflexivity.
+  - rewrite render_vec. eexists _, _. split; [reflexivity|]. repeat split; reflexivity.
+  - eexists _, _. split; [reflexivity|]. repeat split; reflexivity.
+  - eexists _, _. split; [reflexivity|]. repeat split; reflexivity.
 Qed.
